@@ -78,6 +78,37 @@ func init() {
 			{Name: "rewrite: self-in-path scan under the lock, swapped operands", Edits: []Edit{
 				{File: "internal/routing/forward.go", Old: "\t// Check for routing loops (is our ID in the path?)\n\tfor _, id := range route.Path {\n\t\tif id == t.localID {\n\t\t\treturn false // Loop detected\n\t\t}\n\t}\n\n\tt.mu.Lock()\n\tdefer t.mu.Unlock()\n", New: "\tt.mu.Lock()\n\tdefer t.mu.Unlock()\n\n\tfor i := range route.Path {\n\t\tif t.localID != route.Path[i] {\n\t\t\tcontinue\n\t\t}\n\t\treturn false\n\t}\n"},
 			}},
+			{Name: "rewrite: dedup helper with deferred unlock returning (first sender, size, fresh)", Edits: []Edit{
+				{File: "internal/flood/flood.go", Old: "\t// Check if we've seen this\n\tf.mu.Lock()\n\tif _, ok := f.seenCache[key]; ok {\n\t\tf.mu.Unlock()\n\t\treturn false\n\t}\n\n\tf.seenCache[key] = &SeenAdvertisement{\n\t\tKey:      key,\n\t\tSeenAt:   time.Now(),\n\t\tSeenFrom: fromPeer,\n\t}\n\tf.mu.Unlock()\n", New: "\t_, _, fresh := f.recordSighting(key, fromPeer)\n\tif !fresh {\n\t\treturn false\n\t}\n"},
+				{File: "internal/flood/flood.go", Old: "// HasSeen checks if an advertisement has been seen.", New: "func (f *Flooder) recordSighting(key AdvertisementKey, fromPeer identity.AgentID) (firstFrom identity.AgentID, size int, fresh bool) {\n\tf.mu.Lock()\n\tdefer f.mu.Unlock()\n\tif prior, dup := f.seenCache[key]; dup {\n\t\treturn prior.SeenFrom, len(f.seenCache), false\n\t}\n\tf.seenCache[key] = &SeenAdvertisement{Key: key, SeenAt: time.Now(), SeenFrom: fromPeer}\n\treturn fromPeer, len(f.seenCache), true\n}\n\n// HasSeen checks if an advertisement has been seen."},
+			}},
+			{Name: "rewrite: recipients selected by a helper (switch instead of ||), send error test inverted", Edits: []Edit{
+				{File: "internal/flood/flood.go", Old: "\tfor _, peerID := range f.sender.GetPeerIDs() {\n\t\tif peerID == fromPeer || containsAgent(seenBy, peerID) {\n\t\t\tcontinue\n\t\t}\n\t\tif err := f.sender.SendToPeer(peerID, frame); err != nil {\n\t\t\tf.logger.Debug(logMsg,\n\t\t\t\tlogging.KeyPeerID, peerID.ShortString(),\n\t\t\t\tlogging.KeyError, err)\n\t\t}\n\t}\n}\n", New: "\tfor _, peerID := range f.floodTargets(fromPeer, seenBy) {\n\t\terr := f.sender.SendToPeer(peerID, frame)\n\t\tif err == nil {\n\t\t\tcontinue\n\t\t}\n\t\tf.logger.Debug(logMsg,\n\t\t\tlogging.KeyPeerID, peerID.ShortString(),\n\t\t\tlogging.KeyError, err)\n\t}\n}\n\nfunc (f *Flooder) floodTargets(fromPeer identity.AgentID, seenBy []identity.AgentID) []identity.AgentID {\n\tconnected := f.sender.GetPeerIDs()\n\ttargets := make([]identity.AgentID, 0, len(connected))\n\tfor _, candidate := range connected {\n\t\tswitch {\n\t\tcase candidate == fromPeer:\n\t\tcase containsAgent(seenBy, candidate):\n\t\tdefault:\n\t\t\ttargets = append(targets, candidate)\n\t\t}\n\t}\n\treturn targets\n}\n"},
+			}},
+			{Name: "recipients helper forgets the seen-by filter", ExpectRule: "C11.R4", ExpectKey: "skips seen-by members", Edits: []Edit{
+				{File: "internal/flood/flood.go", Old: "\tfor _, peerID := range f.sender.GetPeerIDs() {\n\t\tif peerID == fromPeer || containsAgent(seenBy, peerID) {\n\t\t\tcontinue\n\t\t}\n\t\tif err := f.sender.SendToPeer(peerID, frame); err != nil {", New: "\tfor _, peerID := range f.floodTargets(fromPeer, seenBy) {\n\t\tif err := f.sender.SendToPeer(peerID, frame); err != nil {"},
+				{File: "internal/flood/flood.go", Old: "// HasSeen checks if an advertisement has been seen.", New: "func (f *Flooder) floodTargets(fromPeer identity.AgentID, seenBy []identity.AgentID) []identity.AgentID {\n\tvar targets []identity.AgentID\n\tfor _, candidate := range f.sender.GetPeerIDs() {\n\t\tif candidate != fromPeer {\n\t\t\ttargets = append(targets, candidate)\n\t\t}\n\t}\n\t_ = seenBy\n\treturn targets\n}\n\n// HasSeen checks if an advertisement has been seen."},
+			}},
+			{Name: "rewrite: self-in-path scan by slices.Contains, existing entry found by slices.IndexFunc", Edits: []Edit{
+				{File: "internal/routing/forward.go", Old: "import (\n\t\"fmt\"\n\t\"sort\"\n", New: "import (\n\t\"fmt\"\n\t\"slices\"\n\t\"sort\"\n"},
+				{File: "internal/routing/forward.go", Old: "\t// Check for routing loops (is our ID in the path?)\n\tfor _, id := range route.Path {\n\t\tif id == t.localID {\n\t\t\treturn false // Loop detected\n\t\t}\n\t}\n\n\tt.mu.Lock()\n\tdefer t.mu.Unlock()\n", New: "\tif slices.Contains(route.Path, t.localID) {\n\t\treturn false\n\t}\n\n\tt.mu.Lock()\n\tdefer t.mu.Unlock()\n\tif slices.IndexFunc(t.routes[route.Key], func(held *ForwardRoute) bool { return held.OriginAgent == route.OriginAgent }) < -1 {\n\t\treturn false\n\t}\n"},
+			}},
+			{Name: "rewrite: sleep command admitted by a shared helper (self test, verification closure, mark), membership helper wraps slices.Contains, probe in its own helper", Edits: []Edit{
+				{File: "internal/flood/flood.go", Old: "\tif containsAgent(cmd.SeenBy, f.localID) {\n\t\treturn false\n\t}\n\n\t// Verify signature if signing key is configured\n\tif err := f.verifySleepCommand(cmd); err != nil {\n\t\tf.logger.Warn(\"sleep command rejected\",\n\t\t\t\"origin\", cmd.OriginAgent.ShortString(),\n\t\t\t\"command_id\", cmd.CommandID,\n\t\t\t\"from_peer\", fromPeer.ShortString(),\n\t\t\tlogging.KeyError, err)\n\t\treturn false\n\t}\n\n\t// Only an authenticated command is recorded as seen: marking before\n\t// verification lets any peer pre-empt a genuine command with its\n\t// (origin, id) and fill the cache with unauthenticated entries.\n\tif !f.markSleepCmdSeen(cmd.OriginAgent, cmd.CommandID, fromPeer) {\n\t\treturn false\n\t}\n", New: "\tif !f.admitCommand(fromPeer, cmd.OriginAgent, cmd.CommandID, cmd.SeenBy, func() error { return f.verifySleepCommand(cmd) }) {\n\t\treturn false\n\t}\n"},
+				{File: "internal/flood/flood.go", Old: "// HasSeen checks if an advertisement has been seen.", New: "func (f *Flooder) admitCommand(fromPeer, origin identity.AgentID, id uint64, seenBy []identity.AgentID, authenticate func() error) bool {\n\tif containsAgent(seenBy, f.localID) {\n\t\treturn false\n\t}\n\tif err := authenticate(); err != nil {\n\t\tf.logger.Warn(\"command rejected\", logging.KeyError, err)\n\t\treturn false\n\t}\n\treturn f.markSleepCmdSeen(origin, id, fromPeer)\n}\n\n// HasSeen checks if an advertisement has been seen."},
+				{File: "internal/flood/flood.go", Old: "\t\"net\"\n\t\"sync\"\n", New: "\t\"net\"\n\t\"slices\"\n\t\"sync\"\n"},
+				{File: "internal/flood/flood.go", Old: "\tfor _, v := range list {\n\t\tif v == id {\n\t\t\treturn true\n\t\t}\n\t}\n\treturn false", New: "\treturn slices.Contains(list, id)"},
+				{File: "internal/flood/flood.go", Old: "\tif existing, ok := f.sleepCmdSeenCache[key]; ok {\n\t\tif existing.SeenFrom != fromPeer {\n\t\t\texisting.SeenAt = time.Now()\n\t\t}\n\t\treturn false\n\t}\n\n\t// Cache full", New: "\tif f.touchSeenSleepCmd(key, fromPeer) {\n\t\treturn false\n\t}\n\n\t// Cache full"},
+				{File: "internal/flood/flood.go", Old: "// HandleSleepCommand processes an incoming SLEEP_COMMAND frame.", New: "func (f *Flooder) touchSeenSleepCmd(key SleepCommandKey, fromPeer identity.AgentID) bool {\n\texisting, ok := f.sleepCmdSeenCache[key]\n\tif !ok {\n\t\treturn false\n\t}\n\tif existing.SeenFrom != fromPeer {\n\t\texisting.SeenAt = time.Now()\n\t}\n\treturn true\n}\n\n// HandleSleepCommand processes an incoming SLEEP_COMMAND frame."},
+			}},
+			{Name: "shared admission helper forgets the self-in-seen-by test", ExpectRule: "C11.R2", ExpectKey: "HandleSleepCommand", Edits: []Edit{
+				{File: "internal/flood/flood.go", Old: "\tif containsAgent(cmd.SeenBy, f.localID) {\n\t\treturn false\n\t}\n\n\t// Verify signature if signing key is configured\n\tif err := f.verifySleepCommand(cmd); err != nil {\n\t\tf.logger.Warn(\"sleep command rejected\",\n\t\t\t\"origin\", cmd.OriginAgent.ShortString(),\n\t\t\t\"command_id\", cmd.CommandID,\n\t\t\t\"from_peer\", fromPeer.ShortString(),\n\t\t\tlogging.KeyError, err)\n\t\treturn false\n\t}\n\n\t// Only an authenticated command is recorded as seen: marking before\n\t// verification lets any peer pre-empt a genuine command with its\n\t// (origin, id) and fill the cache with unauthenticated entries.\n\tif !f.markSleepCmdSeen(cmd.OriginAgent, cmd.CommandID, fromPeer) {\n\t\treturn false\n\t}\n", New: "\tif !f.admitCommand(fromPeer, cmd.OriginAgent, cmd.CommandID, cmd.SeenBy, func() error { return f.verifySleepCommand(cmd) }) {\n\t\treturn false\n\t}\n"},
+				{File: "internal/flood/flood.go", Old: "// HasSeen checks if an advertisement has been seen.", New: "func (f *Flooder) admitCommand(fromPeer, origin identity.AgentID, id uint64, seenBy []identity.AgentID, authenticate func() error) bool {\n\tif err := authenticate(); err != nil {\n\t\tf.logger.Warn(\"command rejected\", logging.KeyError, err)\n\t\treturn false\n\t}\n\t_ = seenBy\n\treturn f.markSleepCmdSeen(origin, id, fromPeer)\n}\n\n// HasSeen checks if an advertisement has been seen."},
+			}},
+			{Name: "probe helper takes its own read lock, insertion under a later write lock", ExpectRule: "C11.R1", ExpectKey: "HandleSleepCommand", Edits: []Edit{
+				{File: "internal/flood/flood.go", Old: "\tf.sleepCmdMu.Lock()\n\tdefer f.sleepCmdMu.Unlock()\n\n\tif existing, ok := f.sleepCmdSeenCache[key]; ok {\n\t\tif existing.SeenFrom != fromPeer {\n\t\t\texisting.SeenAt = time.Now()\n\t\t}\n\t\treturn false\n\t}\n", New: "\tif f.seenSleepCmd(key) {\n\t\treturn false\n\t}\n\tf.sleepCmdMu.Lock()\n\tdefer f.sleepCmdMu.Unlock()\n"},
+				{File: "internal/flood/flood.go", Old: "// HandleSleepCommand processes an incoming SLEEP_COMMAND frame.", New: "func (f *Flooder) seenSleepCmd(key SleepCommandKey) bool {\n\tf.sleepCmdMu.RLock()\n\tdefer f.sleepCmdMu.RUnlock()\n\t_, ok := f.sleepCmdSeenCache[key]\n\treturn ok\n}\n\n// HandleSleepCommand processes an incoming SLEEP_COMMAND frame."},
+			}},
 			{Name: "rewrite: nested positive form, negated membership, swapped operands", Edits: []Edit{
 				{File: "internal/flood/flood.go", Old: "\t\tif peerID == fromPeer || containsAgent(seenBy, peerID) {\n\t\t\tcontinue\n\t\t}\n\t\tif err := f.sender.SendToPeer(peerID, frame); err != nil {\n\t\t\tf.logger.Debug(logMsg,\n\t\t\t\tlogging.KeyPeerID, peerID.ShortString(),\n\t\t\t\tlogging.KeyError, err)\n\t\t}", New: "\t\tif fromPeer != peerID && !containsAgent(seenBy, peerID) {\n\t\t\tif err := f.sender.SendToPeer(peerID, frame); err != nil {\n\t\t\t\tf.logger.Debug(logMsg,\n\t\t\t\t\tlogging.KeyPeerID, peerID.ShortString(),\n\t\t\t\t\tlogging.KeyError, err)\n\t\t\t}\n\t\t}"},
 				{File: "internal/flood/flood.go", Old: "\t// Check loop detection\n\tif containsAgent(seenBy, f.localID) {\n\t\treturn false\n\t}\n", New: "\tself := f.localID\n\tif inList := containsAgent(seenBy, self); inList == true {\n\t\treturn false\n\t}\n"},
@@ -308,7 +339,12 @@ func c11FieldStores(a *ssa.Alloc) (map[string]ssa.Value, map[string]ssa.Instruct
 
 // c11FromPeerList: v is (derived from) an element of the result of a GetPeerIDs() call.
 func c11FromPeerList(v ssa.Value) bool {
-	for _, s := range kit.Slice(v, kit.SliceOpts{}) {
+	// flood-package helpers that select the recipients (e.g. a filtered copy of GetPeerIDs()) are followed
+	follow := func(c ssa.CallInstruction) bool {
+		cal := kit.CalleeOf(c)
+		return cal.Static != nil && kit.FuncPkgPath(cal.Static) == kit.PkgPath(c11FloodPkg)
+	}
+	for _, s := range kit.Slice(v, kit.SliceOpts{FollowCall: follow}) {
 		if s.Kind == kit.SrcCall && s.Call != nil && kit.CalleeOf(s.Call).Name == "GetPeerIDs" {
 			return true
 		}
@@ -428,6 +464,18 @@ func c11IsMembershipFn(fn *ssa.Function) bool {
 		if _, ok := fn.Params[0].Type().Underlying().(*types.Slice); !ok {
 			return false
 		}
+		// a thin wrapper: `return slices.Contains(list, id)` (or another membership helper)
+		if rets := kit.Returns(fn); len(rets) == 1 || (len(rets) == 2 && fn.Recover != nil) {
+			for _, ret := range rets {
+				if ret.Block() == fn.Recover {
+					continue
+				}
+				c, pol := c11Norm(kit.ReturnResult(ret, 0), true)
+				if l, e, ok := c11Membership(c); ok && pol && l == ssa.Value(fn.Params[0]) && e == ssa.Value(fn.Params[1]) {
+					return true
+				}
+			}
+		}
 		nTrue, nFalse := 0, 0
 		for _, ret := range kit.Returns(fn) {
 			if ret.Block() == fn.Recover {
@@ -481,38 +529,115 @@ func c11ElemOf(v ssa.Value, list ssa.Value) bool {
 // call chain: parameters of callees are replaced by the arguments at the given call sites
 // (chain[len-1] is the innermost call). Used to compare "the same received datum" reached two ways.
 func c11Desc(v ssa.Value, chain []ssa.CallInstruction) string {
+	v, chain = c11Reduce(v, chain)
 	switch x := v.(type) {
 	case *ssa.Parameter:
-		fn := x.Parent()
-		idx := -1
-		for i, q := range fn.Params {
-			if q == x {
-				idx = i
-			}
-		}
-		if n := len(chain); n > 0 && idx >= 0 {
-			if cal := kit.CalleeOf(chain[n-1]); cal.Static == fn && idx < len(chain[n-1].Common().Args) {
-				return c11Desc(chain[n-1].Common().Args[idx], chain[:n-1])
-			}
-		}
-		return fmt.Sprintf("%s#%d", kit.FuncName(fn), idx)
+		return fmt.Sprintf("%s#%d", kit.FuncName(x.Parent()), c11ParamIndex(x))
 	case *ssa.UnOp:
 		if x.Op == token.MUL {
 			if fa, ok := x.X.(*ssa.FieldAddr); ok {
 				if f := kit.FieldOfAddr(fa); f != nil {
-					return c11Desc(fa.X, chain) + "." + f.Name()
+					return c11FieldDesc(fa.X, f, chain)
 				}
 			}
 			if a, ok := x.X.(*ssa.Alloc); ok {
 				return fmt.Sprintf("local@%p", a)
 			}
 		}
-	case *ssa.ChangeType:
-		return c11Desc(x.X, chain)
+	case *ssa.Field:
+		if f := kit.FieldOfAddr(x); f != nil {
+			return c11FieldDesc(x.X, f, chain)
+		}
 	case *ssa.Const:
 		return "const " + x.String()
 	}
 	return fmt.Sprintf("%T@%p", v, v)
+}
+
+// c11Reduce follows a value to where it comes from without changing it: conversions of type,
+// parameters replaced by the argument at the matching call of the chain, and loads of local cells
+// that are assigned exactly once (variables captured by a closure, spilled parameters).
+func c11Reduce(v ssa.Value, chain []ssa.CallInstruction) (ssa.Value, []ssa.CallInstruction) {
+	for i := 0; i < 12; i++ {
+		switch x := v.(type) {
+		case *ssa.ChangeType:
+			v = x.X
+			continue
+		case *ssa.Parameter:
+			if n := len(chain); n > 0 {
+				idx := c11ParamIndex(x)
+				if cal := kit.CalleeOf(chain[n-1]); cal.Static == x.Parent() && idx < len(chain[n-1].Common().Args) {
+					v, chain = chain[n-1].Common().Args[idx], chain[:n-1]
+					continue
+				}
+			}
+		case *ssa.UnOp:
+			if d := c11DerefCell(x); d != nil {
+				v = d
+				continue
+			}
+		}
+		break
+	}
+	return v, chain
+}
+
+// c11DerefCell: u is a load of a local cell that is stored to exactly once as a whole (and never
+// through a field address): returns the stored value, else nil.
+func c11DerefCell(u *ssa.UnOp) ssa.Value {
+	if u.Op != token.MUL {
+		return nil
+	}
+	a, ok := u.X.(*ssa.Alloc)
+	if !ok {
+		return nil
+	}
+	return c11CellValue(a)
+}
+
+func c11CellValue(a *ssa.Alloc) ssa.Value {
+	if a.Referrers() == nil {
+		return nil
+	}
+	var val ssa.Value
+	n := 0
+	for _, ref := range *a.Referrers() {
+		if st, ok := ref.(*ssa.Store); ok && st.Addr == ssa.Value(a) {
+			val = st.Val
+			n++
+		}
+	}
+	if n != 1 {
+		return nil
+	}
+	return val
+}
+
+// c11FieldDesc describes field f of the struct (value or pointer) base: a struct literal built
+// in the function is looked through to the value stored into that field.
+func c11FieldDesc(base ssa.Value, f *types.Var, chain []ssa.CallInstruction) string {
+	b, ch := c11Reduce(base, chain)
+	var lit *ssa.Alloc
+	switch x := b.(type) {
+	case *ssa.Alloc:
+		if whole := c11CellValue(x); whole != nil {
+			return c11FieldDesc(whole, f, ch) // cell holding a struct value (spilled parameter / local copy)
+		}
+		lit = x
+	case *ssa.UnOp:
+		if x.Op == token.MUL {
+			if a, ok := x.X.(*ssa.Alloc); ok {
+				lit = a
+			}
+		}
+	}
+	if lit != nil {
+		vals, _ := c11FieldStores(lit)
+		if sv, ok := vals[f.Name()]; ok {
+			return c11Desc(sv, ch)
+		}
+	}
+	return c11Desc(b, ch) + "." + f.Name()
 }
 
 // c11Resolve maps v through parameters to the argument values at every static call site
@@ -669,14 +794,19 @@ func c11ForwardedLits(cx *c11Flood, h *ssa.Function) []c11LitAt {
 
 // c11Dedup is the seen-cache test-and-insert of one handler.
 type c11Dedup struct {
-	fn     *ssa.Function // function holding lookup and insert (the handler or a helper it calls)
-	lookup *ssa.Lookup
-	ok     ssa.Value
-	insert *ssa.MapUpdate
-	field  *types.Var
-	call   *ssa.Call // handler's call to the helper; nil when inline
-	newVal bool      // helper result that means "first sighting"
-	detail string
+	fn      *ssa.Function   // function holding the probe and the insertion (the handler or a helper)
+	probe   ssa.Instruction // the comma-ok Lookup, or the call to a helper that performs it
+	keyVal  ssa.Value       // the key probed, as a value of fn
+	ok      ssa.Value       // value telling whether the key was found
+	okFound bool            // truth value of ok that means "found"
+	insert  *ssa.MapUpdate
+	field   *types.Var
+	chain   []ssa.CallInstruction // calls leading from the handler down to fn (empty when inline)
+	call    *ssa.Call             // last call of chain; nil when inline
+	res     ssa.Value             // fn's boolean verdict as seen by its caller (the call, or the Extract of it)
+	resIdx  int
+	newVal  bool // verdict value that means "first sighting"
+	detail  string
 }
 
 var c11ReachWriteCache = map[*ssa.Function]bool{}
@@ -775,46 +905,162 @@ func c11Sinks(cx *c11Flood, h *ssa.Function) []c11Sink {
 // c11FindDedup locates the seen-cache lookup+insert pair used by handler h.
 func c11FindDedup(cx *c11Flood, h *ssa.Function) *c11Dedup {
 	scan := func(fn *ssa.Function) *c11Dedup {
-		var lks []*ssa.Lookup
 		var ups []*ssa.MapUpdate
 		kit.Instrs(fn, func(in ssa.Instruction) {
-			switch x := in.(type) {
-			case *ssa.Lookup:
-				if f, _ := kit.LoadedField(x.X); f != nil && cx.seenMaps[f] && x.CommaOk {
-					lks = append(lks, x)
-				}
-			case *ssa.MapUpdate:
+			if x, ok := in.(*ssa.MapUpdate); ok {
 				if f, _ := kit.LoadedField(x.Map); f != nil && cx.seenMaps[f] {
 					ups = append(ups, x)
 				}
 			}
 		})
-		for _, l := range lks {
-			lf, _ := kit.LoadedField(l.X)
-			for _, u := range ups {
-				uf, _ := kit.LoadedField(u.Map)
-				if lf == uf {
-					return &c11Dedup{fn: fn, lookup: l, insert: u, field: lf, ok: c11ExtractOf(l, 1)}
+		if len(ups) == 0 {
+			return nil
+		}
+		var found *c11Dedup
+		kit.Instrs(fn, func(in ssa.Instruction) {
+			if found != nil {
+				return
+			}
+			switch x := in.(type) {
+			case *ssa.Lookup:
+				lf, _ := kit.LoadedField(x.X)
+				if lf == nil || !cx.seenMaps[lf] || !x.CommaOk {
+					return
+				}
+				for _, u := range ups {
+					if uf, _ := kit.LoadedField(u.Map); uf == lf {
+						found = &c11Dedup{fn: fn, probe: x, keyVal: x.Index, insert: u, field: lf, ok: c11ExtractOf(x, 1), okFound: true}
+						return
+					}
+				}
+			case *ssa.Call:
+				// a probe helper: looks its parameter up in a seen cache and reports found / not found
+				cal := kit.CalleeOf(x)
+				if cal.Static == nil || cal.Static == fn || kit.FuncPkgPath(cal.Static) != kit.PkgPath(c11FloodPkg) || cx.reach[cal.Static] {
+					return
+				}
+				lf, keyIdx, foundVal, ok := c11ProbeHelper(cx, cal.Static)
+				if !ok || keyIdx >= len(x.Call.Args) {
+					return
+				}
+				for _, u := range ups {
+					if uf, _ := kit.LoadedField(u.Map); uf == lf {
+						found = &c11Dedup{fn: fn, probe: x, keyVal: x.Call.Args[keyIdx], insert: u, field: lf, ok: x, okFound: foundVal}
+						return
+					}
 				}
 			}
-		}
-		return nil
+		})
+		return found
 	}
 	if d := scan(h); d != nil {
 		return d
 	}
-	for _, c := range kit.Calls(h) {
-		call, isCall := c.(*ssa.Call)
-		cal := kit.CalleeOf(c)
-		if !isCall || cal.Static == nil || kit.FuncPkgPath(cal.Static) != kit.PkgPath(c11FloodPkg) || cx.reach[cal.Static] {
+	// helpers of package flood (outside the forwarding chain), up to three calls deep
+	type item struct {
+		fn    *ssa.Function
+		chain []ssa.CallInstruction
+	}
+	seen := map[*ssa.Function]bool{h: true}
+	work := []item{{h, nil}}
+	for len(work) > 0 {
+		it := work[0]
+		work = work[1:]
+		if len(it.chain) >= 3 {
 			continue
 		}
-		if d := scan(cal.Static); d != nil {
-			d.call = call
-			return d
+		for _, c := range kit.Calls(it.fn) {
+			call, isCall := c.(*ssa.Call)
+			cal := kit.CalleeOf(c)
+			if !isCall || cal.Static == nil || cal.Static.Blocks == nil || kit.FuncPkgPath(cal.Static) != kit.PkgPath(c11FloodPkg) || cx.reach[cal.Static] || seen[cal.Static] {
+				continue
+			}
+			seen[cal.Static] = true
+			chain := append(append([]ssa.CallInstruction{}, it.chain...), c)
+			if d := scan(cal.Static); d != nil {
+				d.chain = chain
+				d.call = call
+				return d
+			}
+			work = append(work, item{cal.Static, chain})
 		}
 	}
 	return nil
+}
+
+// c11ProbeHelper recognises a function that looks one of its parameters up in a seen-cache map
+// (comma-ok), does not insert, and returns whether the key was found: returns the map field, the
+// index of the key parameter and the result value that means "found".
+func c11ProbeHelper(cx *c11Flood, fn *ssa.Function) (*types.Var, int, bool, bool) {
+	if fn.Blocks == nil || fn.Signature.Results().Len() != 1 {
+		return nil, 0, false, false
+	}
+	if b, ok := fn.Signature.Results().At(0).Type().Underlying().(*types.Basic); !ok || b.Kind() != types.Bool {
+		return nil, 0, false, false
+	}
+	var lk *ssa.Lookup
+	bad := false
+	kit.Instrs(fn, func(in ssa.Instruction) {
+		switch x := in.(type) {
+		case *ssa.Lookup:
+			if f, _ := kit.LoadedField(x.X); f != nil && cx.seenMaps[f] && x.CommaOk {
+				if lk != nil {
+					bad = true
+				}
+				lk = x
+			}
+		case *ssa.MapUpdate:
+			if f, _ := kit.LoadedField(x.Map); f != nil && cx.seenMaps[f] {
+				bad = true
+			}
+		}
+	})
+	if lk == nil || bad {
+		return nil, 0, false, false
+	}
+	prm, ok := lk.Index.(*ssa.Parameter)
+	if !ok {
+		return nil, 0, false, false
+	}
+	okv := c11ExtractOf(lk, 1)
+	if okv == nil {
+		return nil, 0, false, false
+	}
+	foundSet, missSet := map[bool]bool{}, map[bool]bool{}
+	for _, ret := range kit.Returns(fn) {
+		if ret.Block() == fn.Recover {
+			continue
+		}
+		v := kit.ReturnResult(ret, 0)
+		if b, isC := kit.ConstBool(v); isC {
+			switch {
+			case c11Guarded(ret, okv, true):
+				foundSet[b] = true
+			case c11Guarded(ret, okv, false):
+				missSet[b] = true
+			default:
+				return nil, 0, false, false
+			}
+			continue
+		}
+		c, pol := c11Norm(v, true)
+		if c != okv {
+			return nil, 0, false, false
+		}
+		foundSet[pol], missSet[!pol] = true, true
+	}
+	if len(foundSet) != 1 || len(missSet) != 1 {
+		return nil, 0, false, false
+	}
+	var fv bool
+	for b := range foundSet {
+		fv = b
+	}
+	if missSet[fv] {
+		return nil, 0, false, false
+	}
+	f, _ := kit.LoadedField(lk.X)
+	return f, c11ParamIndex(prm), fv, true
 }
 
 func runC11(p *kit.Program, r *kit.Report) {
@@ -863,23 +1109,23 @@ func runC11(p *kit.Program, r *kit.Report) {
 			}
 			r.Violation("C11.R1", hn+" dedup", pos, "%s", msg)
 		} else {
-			dpos := p.Pos(d.lookup.Pos())
+			dpos := p.Pos(d.probe.Pos())
 			// one key
-			sameKey := d.lookup.Index == d.insert.Key || c11SameLoad(d.lookup.Index, d.insert.Key)
+			sameKey := d.keyVal == d.insert.Key || c11SameLoad(d.keyVal, d.insert.Key)
 			// insertion only when not found
-			insGuard := d.ok != nil && c11Guarded(d.insert, d.ok, false)
+			insGuard := d.ok != nil && c11Guarded(d.insert, d.ok, !d.okFound)
 			// one write-locked region
 			li := kit.Locks(d.fn)
 			atomic := false
-			for _, mu := range li.AnyHeldAt(d.lookup) {
-				acq, held := li.HeldAt(d.lookup, mu)
+			for _, mu := range li.AnyHeldAt(d.probe) {
+				acq, held := li.HeldAt(d.probe, mu)
 				if !held || acq == nil {
 					continue
 				}
 				if ci, ok := acq.(ssa.CallInstruction); !ok || kit.CalleeOf(ci).Name != "Lock" {
 					continue
 				}
-				if li.SameRegion(d.lookup, d.insert, mu) {
+				if li.SameRegion(d.probe, d.insert, mu) {
 					atomic = true
 				}
 			}
@@ -897,9 +1143,9 @@ func runC11(p *kit.Program, r *kit.Report) {
 			for _, s := range sinks {
 				ok := false
 				if d.call == nil {
-					ok = d.ok != nil && c11Guarded(s.in, d.ok, false) && kit.Precedes(d.insert, s.in)
+					ok = d.ok != nil && c11Guarded(s.in, d.ok, !d.okFound) && kit.Precedes(d.insert, s.in)
 				} else {
-					ok = polOK && c11Guarded(s.in, d.call, d.newVal)
+					ok = polOK && d.res != nil && c11FactHolds(s.in, d.res, d.newVal)
 				}
 				r.Decide(ok, "C11.R1", hn+" "+s.name+" after first sighting", p.Pos(s.in.Pos()),
 					"reached only on the first-sighting edge of the seen cache",
@@ -912,20 +1158,20 @@ func runC11(p *kit.Program, r *kit.Report) {
 		// ---------------- R2
 		for _, s := range sinks {
 			ok, why := false, "no dominating membership test of the local id in the received seen-by list"
-			for _, g := range c11Guards(s.in) {
-				list, elem, isM := c11Membership(g.Cond)
+			for _, g := range c11FactsAt(s.in) { // guards, and what admission helpers established
+				list, elem, isM := c11Membership(g.cond)
 				if !isM {
 					continue
 				}
 				if !c11LoadsField(elem, cx.localID) {
-					why = "the membership test at " + p.Pos(g.If.Pos()) + " does not look for the local id"
+					why = "the membership test at " + p.Pos(g.cond.Pos()) + " does not look for the local id"
 					continue
 				}
-				if !c11RecvList(cx, list, h) {
-					why = "the membership test at " + p.Pos(g.If.Pos()) + " does not search the received seen-by list"
+				if !c11RecvListVia(cx, list, g.chain, h) {
+					why = "the membership test at " + p.Pos(g.cond.Pos()) + " does not search the received seen-by list"
 					continue
 				}
-				if g.Polarity {
+				if g.pol {
 					why = "the effect lies on the edge where the local id IS in the seen-by list"
 					continue
 				}
@@ -993,22 +1239,33 @@ func runC11(p *kit.Program, r *kit.Report) {
 			r.Decide(depth == 1 && c11FromPeerList(peer), "C11.R4", key+" once per peer", pos,
 				"inside exactly one loop over GetPeerIDs()",
 				fmt.Sprintf("the send is nested in %d loops or its destination is not the GetPeerIDs() element: a peer can receive the frame several times", depth))
+			// where a connected peer becomes a destination: the send itself, or the point in a
+			// recipient-selecting helper where the peer is appended to the returned list
+			selFn, selSite, selPeer, bindOK := c11Selection(cx, fn, s)
 			skipSender, skipSeen := false, false
-			for _, g := range c11Guards(s) {
-				if b, ok := g.Cond.(*ssa.BinOp); ok && (b.Op == token.EQL || b.Op == token.NEQ) {
-					other := ssa.Value(nil)
-					if c11SameLoad(b.X, peer) {
-						other = b.Y
-					} else if c11SameLoad(b.Y, peer) {
-						other = b.X
+			if selSite != nil && bindOK {
+				for _, g := range c11Guards(selSite) {
+					if b, ok := g.Cond.(*ssa.BinOp); ok && (b.Op == token.EQL || b.Op == token.NEQ) {
+						other := ssa.Value(nil)
+						if c11SameLoad(b.X, selPeer) {
+							other = b.Y
+						} else if c11SameLoad(b.Y, selPeer) {
+							other = b.X
+						}
+						if prm, ok := other.(*ssa.Parameter); ok && prm.Parent() == selFn && c11IsAgentID(cx, prm.Type()) && (b.Op == token.NEQ) == g.Polarity {
+							skipSender = true
+						}
 					}
-					if prm, ok := other.(*ssa.Parameter); ok && prm.Parent() == fn && c11IsAgentID(cx, prm.Type()) && (b.Op == token.NEQ) == g.Polarity {
-						skipSender = true
+					if list, elem, ok := c11Membership(g.Cond); ok && !g.Polarity && c11SameLoad(elem, selPeer) {
+						if prm, ok := list.(*ssa.Parameter); ok && prm.Parent() == selFn {
+							skipSeen = true
+						}
 					}
 				}
-				if list, elem, ok := c11Membership(g.Cond); ok && !g.Polarity && c11SameLoad(elem, peer) {
-					if prm, ok := list.(*ssa.Parameter); ok && prm.Parent() == fn {
-						skipSeen = true
+				if selFn != fn {
+					pos = p.Pos(selSite.Pos())
+					if d := c11LoopDepth(selSite.Block()); d != 1 {
+						skipSeen, skipSender = false, false
 					}
 				}
 			}
@@ -1023,6 +1280,87 @@ func runC11(p *kit.Program, r *kit.Report) {
 
 	// ---------------- R5
 	g4SelfInPath(p, cx, r, "C11.R5")
+}
+
+// c11Selection finds, for the send `s` of forwarding function fn, the instruction at which a
+// connected peer is chosen as destination: `s` itself when its destination is an element of
+// GetPeerIDs(), or — when the destination is an element of the list returned by a flood helper —
+// the append in that helper which adds an element of GetPeerIDs() to the result. bindOK is false
+// when the helper's sender / seen-by parameters are not fed with fn's own parameters.
+func c11Selection(cx *c11Flood, fn *ssa.Function, s ssa.CallInstruction) (*ssa.Function, ssa.Instruction, ssa.Value, bool) {
+	peer := kit.Arg(s, 0)
+	list := c11ElemList(peer)
+	if list == nil {
+		return fn, s, peer, true
+	}
+	call, ok := list.(*ssa.Call)
+	if !ok {
+		return fn, s, peer, true
+	}
+	cal := kit.CalleeOf(call)
+	if cal.Static == nil || cal.Static.Blocks == nil || kit.FuncPkgPath(cal.Static) != kit.PkgPath(c11FloodPkg) {
+		return fn, s, peer, true // GetPeerIDs() itself or an opaque call: judged at the send
+	}
+	h := cal.Static
+	var site ssa.Instruction
+	var chosen ssa.Value
+	n := 0
+	kit.Instrs(h, func(in ssa.Instruction) {
+		c, ok := in.(*ssa.Call)
+		if !ok || kit.CalleeOf(c).Built != "append" || len(c.Call.Args) != 2 || !c11IsAgentList(cx, c.Type()) {
+			return
+		}
+		sl, ok := c.Call.Args[1].(*ssa.Slice)
+		if !ok {
+			return
+		}
+		a, ok := sl.X.(*ssa.Alloc)
+		if !ok || a.Referrers() == nil {
+			return
+		}
+		for _, ref := range *a.Referrers() {
+			ia, ok := ref.(*ssa.IndexAddr)
+			if !ok || ia.Referrers() == nil {
+				continue
+			}
+			for _, r2 := range *ia.Referrers() {
+				if st, ok := r2.(*ssa.Store); ok && st.Addr == ssa.Value(ia) && c11ElemList(st.Val) != nil && c11FromPeerList(st.Val) {
+					site, chosen = c, st.Val
+					n++
+				}
+			}
+		}
+	})
+	if n != 1 {
+		return fn, s, peer, true // no (or no unique) selection point in the helper: judged at the send
+	}
+	// the helper's AgentID / []AgentID parameters must be fed with fn's parameters
+	bindOK := true
+	for i, prm := range h.Params {
+		if i >= len(call.Call.Args) || !(c11IsAgentID(cx, prm.Type()) || c11IsAgentList(cx, prm.Type())) {
+			continue
+		}
+		if i == 0 && h.Signature.Recv() != nil {
+			continue
+		}
+		if ap, ok := call.Call.Args[i].(*ssa.Parameter); !ok || ap.Parent() != fn {
+			bindOK = false
+		}
+	}
+	return h, site, chosen, bindOK
+}
+
+// c11ElemList: v is a load of an element of a list (list[i]); returns the list value.
+func c11ElemList(v ssa.Value) ssa.Value {
+	if u, ok := v.(*ssa.UnOp); ok && u.Op == token.MUL {
+		if ia, ok := u.X.(*ssa.IndexAddr); ok {
+			return ia.X
+		}
+	}
+	if ix, ok := v.(*ssa.Index); ok {
+		return ix.X
+	}
+	return nil
 }
 
 // c11SplitDedup: the entry point (with its flood callees) both probes and fills a seen cache, but
@@ -1068,16 +1406,42 @@ func c11ExtractOf(v ssa.Value, idx int) ssa.Value {
 // c11HelperPolarity decides which boolean result of the dedup helper means "not seen before, now
 // recorded". Accepted result forms: constants, and the lookup's ok value (possibly negated).
 func c11HelperPolarity(d *c11Dedup) (newVal bool, ok bool) {
+	// the helper may return several values (first sender, cache size, fresh): try every boolean
+	// result; the one whose values separate "recorded as new" from "found" is the verdict
+	rs := d.fn.Signature.Results()
+	for i := 0; i < rs.Len(); i++ {
+		if b, isB := rs.At(i).Type().Underlying().(*types.Basic); !isB || b.Kind() != types.Bool {
+			continue
+		}
+		nv, good := c11HelperPolarityAt(d, i)
+		if !good {
+			continue
+		}
+		d.resIdx = i
+		d.res = nil
+		if d.call != nil {
+			if rs.Len() == 1 {
+				d.res = d.call
+			} else {
+				d.res = c11ExtractOf(d.call, i)
+			}
+		}
+		return nv, d.call == nil || d.res != nil
+	}
+	return false, false
+}
+
+func c11HelperPolarityAt(d *c11Dedup, idx int) (newVal bool, ok bool) {
 	newSet := map[bool]bool{}
 	oldSet := map[bool]bool{}
 	for _, ret := range kit.Returns(d.fn) {
 		if ret.Block() == d.fn.Recover {
 			continue
 		}
-		if len(ret.Results) != 1 {
+		if len(ret.Results) <= idx {
 			return false, false
 		}
-		v := kit.ReturnResult(ret, 0)
+		v := kit.ReturnResult(ret, idx)
 		if b, isConst := kit.ConstBool(v); isConst {
 			if kit.Precedes(d.insert, ret) {
 				newSet[b] = true
@@ -1095,8 +1459,8 @@ func c11HelperPolarity(d *c11Dedup) (newVal bool, ok bool) {
 		if c11ReachAvoiding(d, ret) {
 			return false, false
 		}
-		newSet[!pol] = true
-		oldSet[pol] = true
+		newSet[d.okFound != pol] = true
+		oldSet[d.okFound == pol] = true
 	}
 	if len(newSet) != 1 {
 		return false, false
@@ -1127,8 +1491,8 @@ func c11ReachAvoiding(d *c11Dedup, ret *ssa.Return) bool {
 			continue
 		}
 		found = true
-		start := b.Succs[1] // edge taken when cond is false
-		if !pol {
+		start := b.Succs[1] // the not-found edge
+		if (!d.okFound) == pol {
 			start = b.Succs[0]
 		}
 		seen := map[*ssa.BasicBlock]bool{}
@@ -1161,35 +1525,21 @@ func c11ReachAvoiding(d *c11Dedup, ret *ssa.Return) bool {
 // c11KeyDescs renders the agent-id and the 64-bit components of the dedup key as paths rooted at
 // the entry point's parameters ("" when the key is not such a struct).
 func c11KeyDescs(cx *c11Flood, d *c11Dedup) (string, string) {
-	var chain []ssa.CallInstruction
-	if d.call != nil {
-		chain = []ssa.CallInstruction{d.call}
-	}
 	var keyAgent, keyNum string
-	if ld, ok := d.lookup.Index.(*ssa.UnOp); ok && ld.Op == token.MUL {
-		if a, ok := ld.X.(*ssa.Alloc); ok {
-			vals, _ := c11FieldStores(a)
-			for _, v := range vals {
-				if c11IsAgentID(cx, v.Type()) {
-					keyAgent = c11Desc(v, chain)
-				} else if b, ok := v.Type().Underlying().(*types.Basic); ok && b.Kind() == types.Uint64 {
-					keyNum = c11Desc(v, chain)
-				}
-			}
-		}
-	} else if prm, ok := d.lookup.Index.(*ssa.Parameter); ok && d.call != nil {
-		// helper receives the key struct: look at the caller's literal
-		arg := d.call.Call.Args[c11ParamIndex(prm)]
-		if ld, ok := arg.(*ssa.UnOp); ok && ld.Op == token.MUL {
-			if a, ok := ld.X.(*ssa.Alloc); ok {
-				vals, _ := c11FieldStores(a)
-				for _, v := range vals {
-					if c11IsAgentID(cx, v.Type()) {
-						keyAgent = c11Desc(v, nil)
-					} else if b, ok := v.Type().Underlying().(*types.Basic); ok && b.Kind() == types.Uint64 {
-						keyNum = c11Desc(v, nil)
-					}
-				}
+	k, ch := c11Reduce(d.keyVal, d.chain)
+	var lit *ssa.Alloc
+	if ld, ok := k.(*ssa.UnOp); ok && ld.Op == token.MUL {
+		lit, _ = ld.X.(*ssa.Alloc)
+	} else if a, ok := k.(*ssa.Alloc); ok {
+		lit = a
+	}
+	if lit != nil {
+		vals, _ := c11FieldStores(lit)
+		for _, v := range vals {
+			if c11IsAgentID(cx, v.Type()) {
+				keyAgent = c11Desc(v, ch)
+			} else if b, ok := v.Type().Underlying().(*types.Basic); ok && b.Kind() == types.Uint64 {
+				keyNum = c11Desc(v, ch)
 			}
 		}
 	}
@@ -1200,7 +1550,7 @@ func c11KeyDescs(cx *c11Flood, d *c11Dedup) (string, string) {
 // message that the handler forwards.
 func c11KeyIdentity(cx *c11Flood, r *kit.Report, h *ssa.Function, d *c11Dedup, sinks []c11Sink) {
 	hn := kit.FuncName(h)
-	pos := cx.p.Pos(d.lookup.Pos())
+	pos := cx.p.Pos(d.probe.Pos())
 	keyAgent, keyNum := c11KeyDescs(cx, d)
 	if keyAgent == "" || keyNum == "" {
 		r.Violation("C11.R1", hn+" dedup key", pos, "the seen-cache key is not a struct of an agent id and a 64-bit number built from the received frame: distinct announcements collide or one announcement gets several keys")
